@@ -1,0 +1,296 @@
+/*-
+  verif.c -- verification hooks (event trace, schedule perturbation)
+
+  Compiled to nothing unless -DKJN_LBZIP2_VERIF is given.  See verif.h.
+*/
+
+#ifdef KJN_LBZIP2_VERIF
+
+#include <errno.h>
+#include <fcntl.h>
+#include <pthread.h>
+#include <sched.h>
+#include <stdarg.h>
+#include <stdio.h>
+#include <stdlib.h>
+#include <string.h>
+#include <time.h>
+#include <unistd.h>
+
+#include "verif.h"
+
+/* The trace lock.  Leaf lock: nothing is acquired while it is held. */
+static pthread_mutex_t trace_lock = PTHREAD_MUTEX_INITIALIZER;
+static int trace_fd = -2;       /* -2: not yet looked up, -1: disabled */
+static unsigned long trace_seq;
+static int next_tid;
+
+static __thread int my_tid = -1;
+static __thread int my_mon;
+static __thread unsigned my_rel;
+static __thread unsigned long my_rng;
+
+static pthread_once_t once = PTHREAD_ONCE_INIT;
+static long perturb_seed = -1;
+static unsigned perturb_level = 8;
+
+#define MAX_DELAYS 16
+static struct {
+  char site[32];
+  long key;                     /* -1: any */
+  unsigned long usec;
+} delays[MAX_DELAYS];
+static int n_delays;
+
+static int live[VERIF_C_MAX];
+static int peak[VERIF_C_MAX];
+
+
+static void
+init_once(void)
+{
+  const char *p;
+
+  p = getenv("VERIF_SCHED_SEED");
+  if (p != NULL && *p != '\0')
+    perturb_seed = strtol(p, NULL, 10) & 0x7fffffffL;
+  p = getenv("VERIF_SCHED_LEVEL");
+  if (p != NULL && *p != '\0')
+    perturb_level = (unsigned)strtoul(p, NULL, 10);
+  if (perturb_level < 2)
+    perturb_level = 2;
+
+  /* VERIF_DELAY=site:key=usec,site:*=usec,... */
+  p = getenv("VERIF_DELAY");
+  while (p != NULL && *p != '\0' && n_delays < MAX_DELAYS) {
+    const char *colon = strchr(p, ':');
+    const char *eq = strchr(p, '=');
+    const char *end = strchr(p, ',');
+    size_t n;
+
+    if (colon == NULL || eq == NULL || eq < colon)
+      break;
+    n = (size_t)(colon - p);
+    if (n >= sizeof(delays[0].site))
+      n = sizeof(delays[0].site) - 1;
+    memcpy(delays[n_delays].site, p, n);
+    delays[n_delays].site[n] = '\0';
+    delays[n_delays].key = colon[1] == '*' ? -1 : strtol(colon + 1, NULL, 10);
+    delays[n_delays].usec = strtoul(eq + 1, NULL, 10);
+    n_delays++;
+    p = end != NULL ? end + 1 : NULL;
+  }
+}
+
+
+unsigned long
+verif_env(const char *name, unsigned long dflt)
+{
+  const char *p = getenv(name);
+
+  if (p == NULL || *p == '\0')
+    return dflt;
+  return strtoul(p, NULL, 10);
+}
+
+
+int
+verif_tracing(void)
+{
+  int fd;
+
+  pthread_mutex_lock(&trace_lock);
+  if (trace_fd == -2) {
+    const char *p = getenv("VERIF_TRACE");
+
+    trace_fd = -1;
+    if (p != NULL && *p != '\0')
+      trace_fd = open(p, O_WRONLY | O_CREAT | O_APPEND | O_CLOEXEC, 0666);
+  }
+  fd = trace_fd;
+  pthread_mutex_unlock(&trace_lock);
+  return fd >= 0;
+}
+
+
+/* Append one event to the trace.  Must be called at the linearization point
+   of the transition it reports: after the state change, while the monitor
+   protecting that state is still held.  The sequence number is drawn under
+   the trace lock, i.e. while that monitor is held, so for every monitor the
+   order of sequence numbers is the order of its critical sections. */
+void
+verif_ev(const char *fmt, ...)
+{
+  char buf[1536];
+  int n, m;
+  va_list ap;
+
+  if (trace_fd == -1)
+    return;
+  if (trace_fd == -2 && !verif_tracing())
+    return;
+
+  pthread_mutex_lock(&trace_lock);
+  if (my_tid < 0)
+    my_tid = next_tid++;
+  n = snprintf(buf, sizeof(buf), "{\"seq\":%lu,\"tid\":%d,\"mon\":%d,",
+               ++trace_seq, my_tid, my_mon);
+  va_start(ap, fmt);
+  m = vsnprintf(buf + n, sizeof(buf) - (size_t)n - 3, fmt, ap);
+  va_end(ap);
+  if (m < 0)
+    m = 0;
+  if ((size_t)m > sizeof(buf) - (size_t)n - 3)
+    m = (int)(sizeof(buf) - (size_t)n - 3);
+  n += m;
+  buf[n++] = '}';
+  buf[n++] = '\n';
+  {
+    const char *q = buf;
+    while (n > 0) {
+      ssize_t w = write(trace_fd, q, (size_t)n);
+      if (w < 0) {
+        if (errno == EINTR)
+          continue;
+        break;
+      }
+      q += w;
+      n -= (int)w;
+    }
+  }
+  pthread_mutex_unlock(&trace_lock);
+}
+
+
+void
+verif_mon_set(int bit)
+{
+  my_mon |= bit;
+}
+
+void
+verif_mon_clr(int bit)
+{
+  my_mon &= ~bit;
+}
+
+
+/* Pseudo-random schedule perturbation.  Active only with VERIF_SCHED_SEED.
+   Takes no lock. */
+void
+verif_perturb(void)
+{
+  unsigned long r;
+
+  pthread_once(&once, init_once);
+  if (perturb_seed < 0)
+    return;
+
+  if (my_rng == 0) {
+    static int salt;
+    my_rng = (unsigned long)perturb_seed * 2654435761ul
+      + 0x9E3779B97F4A7C15ul * (unsigned long)(1 + __atomic_add_fetch(&salt, 1, __ATOMIC_RELAXED));
+    if (my_rng == 0)
+      my_rng = 1;
+  }
+  my_rng ^= my_rng << 13;
+  my_rng ^= my_rng >> 7;
+  my_rng ^= my_rng << 17;
+  r = my_rng >> 11;
+
+  switch (r % perturb_level) {
+  case 0:
+    sched_yield();
+    break;
+  case 1:
+    {
+      struct timespec ts;
+      ts.tv_sec = 0;
+      ts.tv_nsec = (long)((r >> 8) % 300000ul);
+      nanosleep(&ts, NULL);
+    }
+    break;
+  default:
+    break;
+  }
+}
+
+
+/* Deterministic delay at a named site (only in regions where no lbzip2 mutex
+   is held).  Active only with VERIF_DELAY. */
+void
+verif_delay(const char *site, unsigned long key)
+{
+  int i;
+
+  pthread_once(&once, init_once);
+  for (i = 0; i < n_delays; i++) {
+    if (strcmp(delays[i].site, site) == 0
+        && (delays[i].key < 0 || (unsigned long)delays[i].key == key)) {
+      struct timespec ts;
+      ts.tv_sec = (time_t)(delays[i].usec / 1000000ul);
+      ts.tv_nsec = (long)(delays[i].usec % 1000000ul) * 1000L;
+      nanosleep(&ts, NULL);
+    }
+  }
+}
+
+
+void
+verif_alloc(int cls, int delta)
+{
+  int now = __atomic_add_fetch(&live[cls], delta, __ATOMIC_SEQ_CST);
+  int old = __atomic_load_n(&peak[cls], __ATOMIC_RELAXED);
+
+  while (now > old
+         && !__atomic_compare_exchange_n(&peak[cls], &old, now, 0,
+                                         __ATOMIC_SEQ_CST, __ATOMIC_RELAXED))
+    ;
+}
+
+int
+verif_live(int cls)
+{
+  return __atomic_load_n(&live[cls], __ATOMIC_SEQ_CST);
+}
+
+int
+verif_peak(int cls)
+{
+  return __atomic_load_n(&peak[cls], __ATOMIC_SEQ_CST);
+}
+
+void
+verif_alloc_reset(void)
+{
+  int i;
+
+  for (i = 0; i < VERIF_C_MAX; i++) {
+    __atomic_store_n(&live[i], 0, __ATOMIC_SEQ_CST);
+    __atomic_store_n(&peak[i], 0, __ATOMIC_SEQ_CST);
+  }
+}
+
+
+/* Number of input buffers the calling thread released since the last call. */
+void
+verif_rel_note(void)
+{
+  my_rel++;
+}
+
+unsigned
+verif_rel_take(void)
+{
+  unsigned r = my_rel;
+
+  my_rel = 0;
+  return r;
+}
+
+#else
+
+/* ISO C forbids an empty translation unit. */
+typedef int verif_not_enabled;
+
+#endif
